@@ -6,6 +6,7 @@ def run(ctx):
     accept.rule_stable_unsat(ctx)
     cli.rule_dispatch(ctx)
     accept.rule_membership_answers(ctx)
+    accept.rule_list_quantifiers(ctx)
     accept.rule_certificate_shapes(ctx)
     ctx.assume("rustc's MIR and resolved callees; the tables stated in the property (DC-PR through the complete solver)")
     return (
